@@ -97,7 +97,37 @@ def setup():
         def input_data_type(cls):
             return tu.FloatDataType
 
-    for c in (VerifAltCollection, VerifKeyedPayloadSource, VerifCtxWriteOperation, VerifUndocSource, VerifUndocProbe, VerifUndocSink):
+    class VerifStoreSourceSink(DataSource, DataSink):
+        """An in-memory store that can be read and written: a source first (harness side)."""
+
+        @classmethod
+        def _get_data(cls, value: float = 1.0):
+            return tu.FloatDataType(value)
+
+        @classmethod
+        def output_data_type(cls):
+            return tu.FloatDataType
+
+        @classmethod
+        def _send_data(cls, data, path: str):
+            return None
+
+        @classmethod
+        def input_data_type(cls):
+            return tu.FloatDataType
+
+    class VerifTypedProbe(tu.FloatProbe):
+        """A probe that also says what its RESULT is (the node still passes its input through) (harness side)."""
+
+        def _process_logic(self, data):
+            return [data.data]
+
+        @classmethod
+        def output_data_type(cls):
+            return tu.FloatDataCollection
+
+    for c in (VerifAltCollection, VerifKeyedPayloadSource, VerifCtxWriteOperation, VerifUndocSource, VerifUndocProbe, VerifUndocSink,
+              VerifStoreSourceSink, VerifTypedProbe):
         ProcessorRegistry.register_processor(c.__name__, c)
     _state["ready"] = True
     return _state
@@ -111,6 +141,42 @@ BASES = ["FloatValueDataSource", "FloatValueDataSourceWithDefault", "FloatPayloa
 QUICK_BASES = ["FloatValueDataSource", "VerifKeyedPayloadSource", "FloatMultiplyOperation", "FloatCollectionSumOperation",
                "VerifCtxWriteOperation", "FloatBasicProbe", "FloatMockDataSink", "FloatPayloadSink",
                "VerifUndocSource", "VerifUndocProbe", "VerifUndocSink"]
+
+
+def typed_probe_oracle(ck):
+    """Direct oracle only (the model has no notion of a probe's result type): a probe that declares an output_data_type of its
+    own -- plain, keyed, sliced -- still gives a node that passes its input type through, with no error diagnostic."""
+    base = base_facts("VerifTypedProbe")
+    n = 0
+    for c in (base, {"t": "slice", "c": base, "coll": FDC}):
+        for cfg in (c, {"t": "key", "c": c, "key": "k"}):
+            for via in (False, True):
+                o = observe(cfg, via)
+                n += 1
+                if not o["ok"]:
+                    continue
+                o["p"]["out"] = None        # (what the probe says about its result is not the node's output)
+                for sig, what in oracle(cfg, o):
+                    ck.fail_input(sig + ":probe-declaring-a-result-type", what + " [a DataProbe that declares output_data_type]",
+                                  {"cfg": short(cfg), "via_pipeline": via, "kind": "typed-probe"})
+    # a data-IO class with two roles (an in-memory store that can be read and written; DataSource comes first in its bases and in
+    # its component_type): node class and adapter must both treat it as the source it says it is
+    dual = base_facts("VerifStoreSourceSink")
+    for via in (False, True):
+        o = observe(dual, via)
+        n += 1
+        if not o["ok"]:
+            ck.fail_input("C16:dual-role-io-class:not-constructible", "a class inheriting DataSource and DataSink cannot be wrapped: %s" % o["error"],
+                          {"cfg": short(dual), "via_pipeline": via, "kind": "dual-role"})
+            continue
+        probs = oracle(dual, o)
+        if o["node_class"] != "_DataSourceNode" or o["p"]["md"].get("component_type") != "DataSource":
+            probs.append(("C16:dual-role-io-class:node-and-adapter-disagree", "node base class %s around a processor of component_type %s"
+                          % (o["node_class"], o["p"]["md"].get("component_type"))))
+        for sig, what in probs:
+            ck.fail_input(sig + ":dual-role-io-class", what + " [a class inheriting DataSource and DataSink]",
+                          {"cfg": short(dual), "via_pipeline": via, "kind": "dual-role"})
+    return n
 
 
 def kind_of_class(cls):
@@ -925,6 +991,7 @@ def run(ck):
     # ---------- direct oracle: classes generated concurrently all reach the registry (SVA107 registry coherence)
     ck.notes["concurrent_registration"] = concurrent_registration_oracle(ck)
     ck.notes["unusual_values_and_histories"] = unusual_values_and_histories_oracle(ck, uniq)
+    ck.notes["typed_probe_oracle_runs"] = typed_probe_oracle(ck)
 
     # ---------- direct oracles
     first = {}
